@@ -98,6 +98,12 @@ class Gen:
                            ['flt', '2.0'], ['mul', ['int', -1], ['qty', '2', [[0, 'dimensionless', '1']]]]])
             val = Fraction(*ex[1:]) if ex[0] == 'rat' else (Fraction(ex[1]) if ex[0] in ('int', 'flt') else
                                                            (Fraction(ex[1]) if ex[0] == 'qty' else Fraction(-2)))
+            if r.random() < 0.3:
+                # an exponent that itself needs a unit conversion: a ratio of two quantities of one dimension in
+                # different units whose physical value is the nice number `val`
+                rx = self.ratio_exponent(val)
+                if rx is not None:
+                    ex = rx
             inner = self.expr(d, depth - 1)
             # (inner ** val) ** (1/val) keeps dimension d:  use  inner**val * inner**(1-val)
             rest = 1 - val
@@ -110,6 +116,36 @@ class Gen:
         if k < 0.90 and d == ():
             return ['fnN', r.choice(['Max', 'Min']), self.expr((), depth - 1), self.expr((), depth - 1)]
         return self.leaf(d)
+
+    def ratio_exponent(self, val):
+        """['mul', qty(v1, a), ['pow', qty(v2, b), -1]] with a, b of one dimension and different scale, physical value val"""
+        r = self.rng
+        cands = [d for d, us in self.by_dim.items() if d != () and len(us) >= 2]
+        if not cands:
+            return None
+        us = self.by_dim[r.choice(cands)]
+        a, b = r.sample(us, 2)
+        sa = U.sem_of(self.sem, [tuple(x) for x in a]).scale
+        sb = U.sem_of(self.sem, [tuple(x) for x in b]).scale
+        ratio = sa / sb
+        q = fr(ratio).limit_denominator(10 ** 6)
+        if q == 0 or abs(mpmath.mpf(q.numerator) / q.denominator - ratio) > abs(ratio) * mpmath.mpf(10) ** -25:
+            return None
+        if not (Fraction(1, 10 ** 6) <= abs(q) <= 10 ** 6) or q == 1:
+            return None
+        v1 = Fraction(r.choice([1, 2, 4, 5, 8]))
+        v2 = v1 * q / val
+        d = v2.denominator
+        while d % 2 == 0:
+            d //= 2
+        while d % 5 == 0:
+            d //= 5
+        if d != 1 or abs(v2) > 10 ** 9 or abs(v2) < Fraction(1, 10 ** 9):
+            return None
+        from decimal import Decimal, getcontext
+        getcontext().prec = 40
+        txt = format(Decimal(v2.numerator) / Decimal(v2.denominator), 'f')
+        return ['mul', ['qty', str(v1), a], ['pow', ['qty', txt, b], ['int', -1]]]
 
     def cond(self, depth):
         r = self.rng
@@ -267,6 +303,8 @@ class World:
         if x.is_Rational:
             return ['rat', Fraction(int(x.p), int(x.q))]
         if x.is_Float:
+            if float(x) != float(x) or abs(float(x)) == float('inf'):
+                raise ValueError('non-finite Float outside the generated fragment')
             return ['flt', Fraction(float(x))]
         if x.is_Matrix:
             return ['other', 'Matrix']
